@@ -1,0 +1,56 @@
+//go:build verif
+
+package aesgcm256cfs
+
+// Machine-checked contracts for /verif (gowp). Comment-only file: it adds no code.
+
+// The key used for sealing is sha3-256 of the key material.
+//@ func hash256 [C05]
+//@   modifies $g.hashin
+//@   ensures err == nil ==> len(out) == 32 && str(out) == sha3S(old(str(in)))
+
+// Stored format: 12-byte random nonce followed by Seal(nonce, plaintext).
+//@ func Cipher.Encrypt [C05]
+//@   modifies $g.hashin, $g.rpos
+//@   at_call Seal requires randFilled(arr($1)) && arr($0) == arr($1)
+//@   ensures err == nil ==> len(encrypted) == 12 + len(data) + 16
+//@   ensures err == nil ==> sub(str(encrypted), 12, len(encrypted)) == sealS(sha3S(old(str(key))), sub(str(encrypted), 0, 12), old(str(data)))
+//@   ensures err == nil ==> isCT(arr(encrypted))
+//@   ensures err != nil ==> encrypted == nil
+
+// Any byte slice is answered with data or an error, never with a panic; on error no data.
+//@ func Cipher.Decrypt [C05]
+//@   modifies $g.hashin
+//@   ensures err != nil ==> decrypted == nil
+//@   ensures err == nil ==> len(data) >= 28 && openOK(sha3S(old(str(key))), sub(old(str(data)), 0, 12), sub(old(str(data)), 12, len(data)))
+//@   ensures err == nil ==> str(decrypted) == openS(sha3S(old(str(key))), sub(old(str(data)), 0, 12), sub(old(str(data)), 12, len(data)))
+
+//@ func newReader [C05]
+//@   requires stream != nil
+//@   ensures err != nil ==> _out == nil
+
+//@ func (*reader).Read [C05]
+//@   modifies aesgcm256cfs.reader.data, E:uint8
+//@   ensures n == ite(len(p) < old(len(r.data)), len(p), old(len(r.data)))
+//@   ensures len(r.data) == old(len(r.data)) - n
+//@   ensures (err != nil) <==> (len(r.data) == 0)
+
+//@ func (*writer).Write [C05]
+//@   modifies aesgcm256cfs.writer.data, E:uint8
+//@   ensures n == len(p) && err == nil
+//@   ensures len(w.data) == old(len(w.data)) + len(p)
+//@   ensures forall(k, 0 <= k && k < old(len(w.data)) ==> w.data[k] == old(w.data[k]))
+//@   ensures forall(k, 0 <= k && k < len(p) ==> w.data[old(len(w.data)) + k] == old(p[k]))
+
+// Close writes Encrypt(key, all chunks) once and closes the base stream.
+//@ func (*writer).Close [C05]
+//@   requires w.stream != nil
+//@   at_call Write requires isCT(arr($0))
+//@   trace Write as WRITE
+//@   trace Close as CLOSE
+//@   trace_ensures err == nil : ^WRITE CLOSE $
+//@   trace_ensures true : ^(WRITE )?(CLOSE )?$
+
+//@ type writer
+//@   field key immutable
+//@   field stream immutable
